@@ -24,7 +24,11 @@ unsigned pv_gf_mul(unsigned a, unsigned b) {
     }
     return r;
 }
-unsigned pv_gf_pow2(int i) { unsigned r = 1; while (i-- > 0) r = pv_gf_mul(r, 2); return r; }
+unsigned pv_gf_pow2(int i) {
+    static unsigned tab[16]; static bool ready;           /* filled by pv_model_init (single-threaded) */
+    if (i >= 0 && i < 16) { if (!ready) { for (int k = 0; k < 16; ++k) { unsigned r = 1; for (int j = 0; j < k; ++j) r = pv_gf_mul(r, 2); tab[k] = r; } ready = true; } return tab[i]; }
+    unsigned r = 1; while (i-- > 0) r = pv_gf_mul(r, 2); return r;
+}
 unsigned pv_m_checkvalue(const unsigned c[16]) {
     unsigned v = 0;
     for (int i = 1; i < 16; ++i) v ^= pv_gf_mul(c[i] & 2047, pv_gf_pow2(i));
@@ -384,6 +388,7 @@ void pv_model_init(void) {
         load_lang(L);
     }
     if (pv_nlangs != 10) pv_fatal("golden: %d languages", pv_nlangs);
+    (void)pv_gf_pow2(1);
     /* field sanity: 2 generates a group in which x -> 2x is a bijection */
     bool seen[2048] = { false };
     for (unsigned x = 0; x < 2048; ++x) { unsigned y = pv_gf_mul(x, 2); if (y >= 2048 || seen[y]) pv_fatal("model: mul2 not injective"); seen[y] = true; }
